@@ -2,6 +2,7 @@ package main
 
 import (
 	"fmt"
+	"go/token"
 	"go/types"
 	"math/big"
 	"sort"
@@ -259,7 +260,14 @@ func (fc *FnCtx) specialInvoke(ins ssa.Instruction, cc *ssa.CallCommon, recv Val
 func (fc *FnCtx) funcParamCall(ins ssa.Instruction, cc *ssa.CallCommon, fv Val, args []Val, setResult func([]Val)) bool {
 	// find the root-most context whose contract names this parameter
 	name := ""
-	switch p := cc.Value.(type) {
+	v := cc.Value
+	if ld, ok := v.(*ssa.UnOp); ok && ld.Op == token.MUL {
+		// captured function variable: the free variable is a pointer to it
+		if _, isFV := ld.X.(*ssa.FreeVar); isFV {
+			v = ld.X
+		}
+	}
+	switch p := v.(type) {
 	case *ssa.Parameter:
 		name = p.Name()
 	case *ssa.FreeVar:
